@@ -84,8 +84,11 @@ impl BodyWriter {
                 let mut input_used = 0;
 
                 if input.is_empty() {
-                    self.finish(w);
-                    self.ended = true;
+                    // The end chunk is written once, and the body is only
+                    // ended if the end chunk fit in the output.
+                    if !self.ended {
+                        self.ended = self.finish(w);
+                    }
                 } else {
                     // The chunk size might be smaller than the entire input, in which case
                     // we continue to send chunks frome the same input.
